@@ -21,7 +21,8 @@
   (the budget of purging arenas per visit is ignored here: MiPurge covers it.)
 
   Variant "fixed" is the code as it is.  "mark_last" puts F1 behind F3 (the order before /repo 95404ba), "no_relook" drops P4
-  (the code before /repo 7a0ea3c).  TLC checks Quiescent: whenever no thread is inside a call,
+  (the code before /repo 7a0ea3c), "skip_in_use" lets A3 pass over a marked block that is in use without re-arming the expiry in A4
+  (the code before the third repair: the thread that marked the block was still about to release it).  TLC checks Quiescent: whenever no thread is inside a call,
         a marked block  =>  its arena has an expiry         (MiArenaValid.PurgeScheduled)
         an arena has an expiry  =>  the global expiry is set  (MiArenaValid.GlobalCoversArenas)
   With either old variant TLC finds the interleaving (tools/selftest.py) -- the two races were first seen in arena tables dumped
@@ -85,7 +86,7 @@ A2(t) == /\ pc[t] = "A2"           \* CAS from the value read in A1 to 0 (a non-
 A3(t) == /\ pc[t] = "A3"
          /\ LET i == loc[t].i IN
             IF mark[i] /\ ~inuse[i] THEN mark' = [mark EXCEPT ![i] = FALSE] /\ loc' = [loc EXCEPT ![t].full = TRUE]       \* claimed, purged, unmarked, released
-            ELSE UNCHANGED mark /\ loc' = [loc EXCEPT ![t].full = ~mark[i]]                                              \* marked but in use: not a full purge
+            ELSE UNCHANGED mark /\ loc' = [loc EXCEPT ![t].full = IF Variant = "skip_in_use" THEN TRUE ELSE ~mark[i]]   \* marked but in use: not a full purge
          /\ Goto(t, "A4") /\ UNCHANGED <<inuse, set, rem, gset, grem, guard, ops>>
 A4(t) == /\ pc[t] = "A4"
          /\ LET i == loc[t].i IN
